@@ -474,6 +474,11 @@ class ParserText(ParserBase):
                 # an offset of 24 hours or more is accepted by dateutil but unusable (ValueError); the value kept
                 # is the instant, in UTC, so that equal instants are equal objects with equal renderings
                 date_time = date_time.astimezone(dateutil.tz.UTC)
+            else:
+                # a date without zone is composed as GMT: it is that instant
+                date_time = date_time.replace(tzinfo=dateutil.tz.UTC)
+            # the composed form carries whole seconds
+            date_time = date_time.replace(microsecond=0)
         except (ValueError, OverflowError) as e:
             six.raise_from(InvalidValue(value, type(self), 'value'), e)
 
